@@ -235,14 +235,14 @@ def run(tier, seed):
     s0, f0 = core.pmap_cases(make_eval(exe), directed_cases(seed, tier))
     if not s0.labels.get("groups_18001"):
         raise core.HarnessError("directed tapes no longer reach an 18001-group block: update directed_cases() to bzgen.hpp")
-    n = 2500 if tier == "quick" else 60000
+    n = 2500 if tier == "quick" else 30000
     stats, fails = core.hyp_search(strategy(tier), make_eval(exe), n, seed)
     stats.merge(s1)
     stats.merge(s0)
     fails = f0 + fails
     # in-process: the same generator feeding parse/retrieve/decode/emit directly (ASan/UBSan, asserts on)
     from props import _inproc
-    _inproc.add(stats, fails, "decode_valid", seed + 2, 12000 if tier == "quick" else 1500000)
+    _inproc.add(stats, fails, "decode_valid", seed + 2, 8000 if tier == "quick" else 300000)
     oc = core.conclude(PID, f1 + fails, replay_case)
     core.write_evidence(PID, tier, seed, "exploration", stats, RULE, time.time() - t0, violations=len(oc.violations),
                         assumptions=["bzgen, bzkit and libbz2 must agree that a generated file is valid and on its plaintext "
